@@ -63,6 +63,20 @@ Theorem outlet_pixel_spec : forall sds subncol cs (nrow : nat) ncol,
 Proof. exact UpscaleSpec.out_walk_spec. Qed.
 Print Assumptions outlet_pixel_spec.
 
+(* core._d8_idx, the 8-neighbour helper of the iterative method, returns exactly the cells of the raster whose row and
+   column differ by at most one from the given cell's (itself excluded), on every border and corner; _upstream_d8_idx
+   those of them that drain into the cell *)
+From PF Require Import D8Idx D8IdxSpec.
+Theorem d8_idx_spec : forall idx0 nrow ncol j, 0 < ncol ->
+  In j (d8_idx idx0 nrow ncol) <-> (j < nrow * ncol /\ j <> idx0 /\ in_d8 idx0 j ncol = true).
+Proof. exact D8IdxSpec.d8_idx_spec. Qed.
+Print Assumptions d8_idx_spec.
+Theorem upstream_d8_idx_spec : forall ds idx0 nrow ncol j, 0 < ncol ->
+  In j (upstream_d8_idx ds idx0 nrow ncol) <->
+  (j < nrow * ncol /\ j <> idx0 /\ in_d8 idx0 j ncol = true /\ dsf ds j = idx0).
+Proof. exact D8IdxSpec.upstream_d8_idx_spec. Qed.
+Print Assumptions upstream_d8_idx_spec.
+
 (* every outlet pixel is a DISTINCT fine cell: the exit / representative pixels of dmm and eam, and the outlet pixels of
    eam_plus (ihu step 1), of two different coarse cells differ *)
 From PF Require Import UpscaleDistinct.
